@@ -54,6 +54,8 @@ RULE = (
     "row."
     " Bombs with ONE damaged binding among thousands (last / middle / first); the variants of"
     " a target (plain, re-signed, re-encrypted, bombs) take turns under the time cap."
+    " USM blocks with one field retagged (INTEGER/NULL/SEQUENCE/application) and a short cont"
+    "ent; 400 (thorough 12000) exchanges on one client with flat library-attributed memory."
 )
 ASSUMPTIONS = [
     "steps = sys.monitoring JUMP|PY_START|PY_RESUME|PY_THROW events inside puresnmp, puresnmp_plugins and x690 (every loop iteration takes a backward jump, every call a PY_START)",
